@@ -15,6 +15,10 @@ CFG = {
         "Parsley.C06.a85_uniws_interior", "Parsley.C06.a85Crate_leading_uniws", "Parsley.C06.a85_stray_tilde",
         "Parsley.C06.a85_z_inside_group", "Parsley.C06.a85_z_inside_group_spec", "Parsley.C06.a85_group_overflow",
         "Parsley.C06.a85_single_digit_final",
+        # sweep: the group-position counter is observed only through `!= 0`: the surviving mutants `(in_group + 2) % 5` and
+        # `(in_group - 1) % 5` (i32, truncating %) stage the same text as the original on EVERY input (equivalent mutants)
+        "Parsley.C06.a85_counter_plus2_equiv", "Parsley.C06.a85_counter_minus1_equiv", "Parsley.C06.a85StageC_sim",
+        "Parsley.C06.a85Stage_eq_C",
         # C06c: damaged stored-block zlib streams (Lemmas/InflateReject.lean), through the glue in flate_stored_corrupt_is_error
         "Parsley.C06.flate_stored_corrupt_is_error", "Parsley.C06.flateDecode_err_transform",
         "Parsley.C06.inflate_stored_truncated", "Parsley.C06.inflate_stored_adler_altered",
@@ -71,10 +75,21 @@ CFG = {
             "length 258, forced literals, 1..100000 tokens per block) x self-similar payloads with period 1..32768 - the judge "
             "checks each factorisation with the spec's resolveBlocks, and BOTH the real zlib and the Lean inflate must return the payload; "
             "random recipes (white space sprinkled by seed, digit case, odd-digit shorthand, z / !!!!! per group, partition "
-            "of stored blocks, parameter dictionaries {null, <<>>, <</Predictor 1>>, <</Colors 3 /Columns 5>>}); sh: 12 "
-            "/Filter x /DecodeParms shapes (5 accepted, 6 rejected, 1 lenient) x chain length 0..3 x 4 parameter variants, "
+            "of stored blocks, parameter dictionaries {null, <<>>, <</Predictor 1>>, <</Colors 3 /Columns 5>>}; one recipe in four with a PREDICTOR layer "
+            "at a random position); predictor layers (P: FlateDecode over the forward PNG/TIFF filter of Spec/Predictor.lean, the four Flate encoders): predictor "
+            "{2,10..14} x {single-column image in 1-4 byte and 1/2/4-bit pixel layouts, rows of several pixels, one row} x the parameter writer's "
+            "omission choice {every entry written, every default-valued entry left out, /Columns left out, random subset of the default-valued entries left out; "
+            "defaults of ISO 32000-1 Table 8 stated in Spec/Predictor.lean} x input lengths {1,2,3,4,6,8,12,30}, alone under a single name, alone in parallel "
+            "arrays, outermost and innermost in chains (1152 cases), + 84 with the left-out entries written as non-integer objects (null, real, string, name, "
+            "boolean, array, reference: payload or TransformError, never another value) + 20 zlib corruptions of a predictor layer; sh: 12 "
+            "/Filter x /DecodeParms shapes (5 accepted, 6 rejected, 1 lenient) x chain length 0..3 x 6 parameter variants (two with non-integer values), "
             "unknown filter name at every position; mal: 13 corruptions (illegal char, missing EOD, misaligned z, group "
-            ">= 2^32, truncated zlib, Adler-32 flip, header check, LEN/NLEN or first Huffman code, method; on all four Flate encoders) on outermost and inner layers; rz "
+            ">= 2^32, truncated zlib, Adler-32 flip, header check, LEN/NLEN or first Huffman code, method; on all four Flate encoders) on outermost and inner layers; `z` EVERYWHERE in an ASCII85 text (180 cases; thorough 360): 1..3 consecutive `z`, "
+            "bare / after white space / wrapped in white space, after k = 0..4 digits of the first, middle and last group and directly before `~>` (after "
+            "complete groups and after a final partial group), over texts with and without white space between the digits and with zero groups spelled `z` "
+            "or `!!!!!`, the layer alone or below another one - verdict from the standard's reading of the text (a85Points): at a group boundary each `z` is "
+            "four zero bytes at that place of the payload, anywhere else a TransformError; `z` after the EOD marker and the Adobe `<~` prefix before a text "
+            "beginning with `z` (outside ISO 32000-1: payload or TransformError); rz "
             "(native generator): payloads of 23 boundary sizes 0..100000 (+1 MiB; thorough to 4 MiB) x 5 content kinds "
             "compressed by the REAL zlib at every level 0-9, and random chains <= 3 with real-zlib Flate layers; fz: random "
             "bytes and single-byte mutations of valid encodings (correspondence and no-panic only, judged `skip`). "
@@ -97,7 +112,10 @@ CFG = {
     "assumptions": [
         "requires pending_fixes/C06-01..03 applied to /repo (the model mirrors the repaired glue; on the unrepaired tree the "
         "check reports the DESIGN 4 #6-#10 violations)",
-        "/Predictor is absent or 1 in every Flate parameter dictionary (predictor reversal is property C07)",
+        "THEOREMS: /Predictor is absent or 1 in every Flate parameter dictionary (predictor reversal is property C07; the composition is "
+        "C14.flate_pred_layer). The correspondence run also sends FlateDecode layers with predictors 2, 10..14: there the model's `ext` parameter is "
+        "instantiated as the loader does (Loader.ext = option glue Loader.fInt + C07 model Pred.transformTail) and the oracle is the payload the "
+        "spec-side forward filter started from",
         "stream dictionaries hold direct objects (an indirect /Filter is not resolved by StreamT::filters and is treated as absent)",
     ],
 }
